@@ -168,8 +168,166 @@ S.assumption("A-warn", "warnings.warn does not raise (the process does not run w
 c = S.ext("traceback.print_tb", cite="traceback.print_tb: prints, no other effect")
 c.param("tb", T.Obj).modifies()
 
+c = S.ext("psutil.Process.memory_info", cite="psutil.Process.memory_info(): named tuple with rss. A-psutil: probing one's own pid does not fail")
+c.param("self", T.Ref("psutil.Process")).returns(T.Ref("MemInfo"), fresh=True).modifies()
+S.cls("MemInfo", {"rss": T.Int}, external=True)
+S.assumption("A-psutil", "psutil's memory probe of the worker's own pid does not raise")
+
 S.cls("CompletedProcess", {"stdout": T.Str, "returncode": T.Int}, external=True)
 c = S.ext("subprocess.run", cite="subprocess.run(...): runs a command; may raise OSError/SubprocessError (any Exception)")
 c.param("args", T.Obj).kwargs("kw")
 c.returns(T.Ref("CompletedProcess"), fresh=True).modifies()
 c.may_raise.append(("Exception", None))
+
+
+# =========================================================================
+# threading / multiprocessing primitives used by the executor
+S.ghost("fut_n_exc", z3.ArraySort(T.IntS, T.IntS), "per future: number of set_exception calls")
+S.ghost("fut_exc", z3.ArraySort(T.IntS, T.IntS), "per future: the exception last set")
+S.ghost("fut_n_res", z3.ArraySort(T.IntS, T.IntS), "per future: number of set_result calls")
+S.ghost("fut_res", z3.ArraySort(T.IntS, T.IntS), "per future: the result last set")
+S.ghost("joined", z3.ArraySort(T.IntS, T.BoolS), "processes on which join() was called")
+S.ghost("killed", z3.ArraySort(T.IntS, T.BoolS), "processes on which kill_process_tree() was called")
+S.ghost("sem_released", z3.ArraySort(T.IntS, T.IntS), "per semaphore: number of release() calls")
+S.ghost("n_sentinels", T.IntS, "number of None sentinels successfully put on the call queue")
+S.ghost("started", z3.ArraySort(T.IntS, T.BoolS), "processes on which start() was called")
+
+
+def _held_push(st, lock):
+    st.held.append(lock.t)
+
+
+def _held_pop(st, lock):
+    for i in range(len(st.held) - 1, -1, -1):
+        if st.held[i].eq(lock.t):
+            del st.held[i]
+            return
+    # released without being held on this path: keep going (Python would raise for some kinds)
+
+
+for LK in ("threading.Lock", "threading.RLock", "MPLock"):
+    S.cls(LK, {}, external=True)
+
+    @_impl(f"{LK}.__enter__", cite=f"{LK}: context manager acquires (blocking) and returns True")
+    def _lenter(eng, st, self_v, args, kwargs, node):
+        _held_push(st, self_v)
+        st.emit("acquire", [self_v], eng.site(node))
+        return [eng.val(st, VBool(True))]
+
+    @_impl(f"{LK}.__exit__", cite=f"{LK}: context manager releases on every exit")
+    def _lexit(eng, st, self_v, args, kwargs, node):
+        _held_pop(st, self_v)
+        st.emit("release", [self_v], eng.site(node))
+        return [eng.val(st, NONE)]
+
+    @_impl(f"{LK}.acquire", cite=f"{LK}.acquire(block=True, timeout=None): True when acquired; a non-blocking or timed call may return False")
+    def _lacq(eng, st, self_v, args, kwargs, node):
+        block = args[0] if args else kwargs.get("block", kwargs.get("blocking", VBool(True)))
+        timeout = args[1] if len(args) > 1 else kwargs.get("timeout", NONE)
+        can_fail = z3.Or(z3.Not(eng.truth(block, st)), z3.BoolVal(not isinstance(timeout, type(NONE))))
+        got = z3.Bool(__import__("pyvc.values", fromlist=["fresh_name"]).fresh_name("acq"))
+        st.assume(z3.Implies(z3.Not(can_fail), got))
+        out = []
+        for b, s in eng.branch(st, got):
+            if b:
+                _held_push(s, self_v)
+            s.emit("acquire" if b else "acquire_failed", [self_v, block, timeout], eng.site(node))
+            out.append(eng.val(s, VBool(b)))
+        return out
+
+    @_impl(f"{LK}.release", cite=f"{LK}.release()")
+    def _lrel(eng, st, self_v, args, kwargs, node):
+        _held_pop(st, self_v)
+        g = st.ghost_get("sem_released")
+        st.ghost_set("sem_released", z3.Store(g, self_v.t, z3.Select(g, self_v.t) + 1))
+        st.emit("release", [self_v], eng.site(node))
+        return [eng.val(st, NONE)]
+
+# futures -------------------------------------------------------------------
+S.cls("Future", {}, external=True)
+
+
+@_impl("Future.set_exception", cite="concurrent.futures.Future.set_exception(exc): resolves the future with exc and runs the callbacks (which loky's Future shields)")
+def _fut_set_exc(eng, st, self_v, args, kwargs, node):
+    e = args[0]
+    from pyvc.values import to_obj_term
+    n = st.ghost_get("fut_n_exc")
+    st.ghost_set("fut_n_exc", z3.Store(n, self_v.t, z3.Select(n, self_v.t) + 1))
+    st.ghost_set("fut_exc", z3.Store(st.ghost_get("fut_exc"), self_v.t, to_obj_term(e)))
+    st.emit("set_exception", [self_v, e], eng.site(node))
+    return [eng.val(st, NONE)]
+
+
+@_impl("Future.set_result", cite="concurrent.futures.Future.set_result(r)")
+def _fut_set_res(eng, st, self_v, args, kwargs, node):
+    from pyvc.values import to_obj_term
+    n = st.ghost_get("fut_n_res")
+    st.ghost_set("fut_n_res", z3.Store(n, self_v.t, z3.Select(n, self_v.t) + 1))
+    st.ghost_set("fut_res", z3.Store(st.ghost_get("fut_res"), self_v.t, to_obj_term(args[0])))
+    st.emit("set_result", [self_v, args[0]], eng.site(node))
+    return [eng.val(st, NONE)]
+
+
+c = S.ext("Future.set_running_or_notify_cancel", cite="Future.set_running_or_notify_cancel(): False iff the future was cancelled (then it can never run), True and RUNNING otherwise")
+c.param("self", T.Ref("Future")).returns(T.Bool).event("set_running", "self", "result").modifies()
+c = S.ext("Future", cite="Future(): a new pending future")
+c.returns(T.Ref("Future"), fresh=True).modifies()
+S.classes["Future"].module = "loky._base"
+S.classes["Future"].src_name = "Future"
+S.src_class[("loky._base", "Future")] = "Future"
+
+# connections ---------------------------------------------------------------
+S.cls("Connection", {"closed_": T.Bool}, external=True)
+c = S.ext("Connection.send_bytes", cite="Connection.send_bytes(buf): may raise OSError (EPIPE...) or ValueError/struct.error for oversized messages")
+c.param("self", T.Ref("Connection")).param("buf", T.Obj).event("send_bytes", "self", "buf").modifies()
+c.may_raise.append(("Exception", None))
+c = S.ext("Connection.close", cite="Connection.close()")
+c.param("self", T.Ref("Connection")).event("conn_close", "self").modifies()
+c = S.ext("Connection.poll", cite="Connection.poll(timeout=0.0): whether data is available")
+c.param("self", T.Ref("Connection")).param("timeout", T.Obj, default=NONE).returns(T.Bool).modifies()
+c = S.ext("Connection.recv_bytes", cite="Connection.recv_bytes()")
+c.param("self", T.Ref("Connection")).returns(T.Obj).modifies()
+c = S.ext("Connection.fileno", cite="Connection.fileno()")
+c.param("self", T.Ref("Connection")).returns(T.Int).modifies().is_pure()
+
+c = S.ext("time.time", cite="time.time(): seconds since the epoch (a real)")
+c.returns(T.Real).modifies()
+c = S.ext("time.sleep", cite="time.sleep(s)")
+c.param("s", T.Obj).event("sleep", "s").modifies()
+c = S.ext("os.getpid", cite="os.getpid(): the pid of this process (constant)")
+c.returns(T.Int).modifies().is_pure()
+c = S.ext("gc.collect", cite="gc.collect()")
+c.param("gen", T.Obj, default=NONE).returns(T.Int).modifies()
+c = S.ext("traceback.format_exc", cite="traceback.format_exc(): text of the exception being handled")
+c.returns(T.Str).modifies()
+c = S.ext("traceback.format_exception", cite="traceback.format_exception(type, value, tb): list of strings")
+c.param("a", T.Obj).param("b", T.Obj, default=NONE).param("c", T.Obj, default=NONE).returns(T.Obj).modifies()
+c = S.ext("traceback.print_exc", cite="traceback.print_exc()")
+c.modifies()
+c = S.ext("faulthandler.is_enabled", cite="faulthandler.is_enabled()")
+c.returns(T.Bool).modifies()
+c = S.ext("faulthandler.enable", cite="faulthandler.enable()")
+c.modifies().event("faulthandler_enable")
+for nm in ("critical", "exception", "warning", "info", "debug"):
+    c = S.ext(f"concurrent.futures._base.LOGGER.{nm}", cite="logging: no effect on program state")
+    c.param("msg", T.Obj).varargs("a").kwargs("kw").modifies()
+
+
+@_impl("sys.exit", cite="sys.exit(code): raises SystemExit")
+def _sys_exit(eng, st, self_v, args, kwargs, node):
+    st.emit("sys_exit", list(args), eng.site(node))
+    return [eng.raise_new(st, "SystemExit", args[0] if args else None)]
+
+
+@_impl("sys.exc_info", cite="sys.exc_info(): (type, value, traceback) of the exception being handled")
+def _exc_info(eng, st, self_v, args, kwargs, node):
+    from pyvc.values import VTuple, VObj, fresh_const
+    return [eng.val(st, VTuple([VObj(fresh_const("ei", T.IntS)), st.cur_exc if st.cur_exc is not None else NONE,
+                                 VObj(fresh_const("tb", T.IntS))]))]
+
+
+@_impl("sys.excepthook", cite="sys.excepthook(type, value, tb): reports; user-replaceable, so it may raise anything")
+def _excepthook(eng, st, self_v, args, kwargs, node):
+    from pyvc.values import VFn
+    st.emit("excepthook", list(args), eng.site(node))
+    return eng.call_user(VFn("opaque", t=z3.IntVal(-2001)), [], {}, st, node)
